@@ -1598,6 +1598,19 @@ Print Assumptions c16_ctype_len_needed.
    with an error where b2 should be delivered: the round trip (and prefix_intact with k = 2) fail.
    Real code: TestU2_C16_CodecEmptyEncodingLosesTail ([modern, all-default, modern]: 3 writes
    succeed, 1 of 3 blocks is read back, then "failed reading next dbin message: %!s(<nil>)"). *)
+(* the writer as shipped (Model/Dbin.writer_write_unfixed), all blocks of a sequence *)
+Fixpoint c16_write_from_unfixed (penc : blk -> option str) (st : wstate) (bs : list blk) : wstate * wres :=
+  match bs with
+  | [] => (st, WOk)
+  | b :: r =>
+      match writer_write_unfixed penc st b with
+      | (st', WOk) => c16_write_from_unfixed penc st' r
+      | (st', WErr) => (st', WErr)
+      end
+  end.
+Definition c16_write_all_unfixed (penc : blk -> option str) (bs : list blk) : str * wres :=
+  let '(st, r) := c16_write_from_unfixed penc (mkW false []) bs in (w_out st, r).
+
 Theorem c16_msg_nonempty_needed :
   let penc := c16_tenc [1] [] in
   let pdec := c16_tdec [1] [] c16_b1 c16_b2 in
@@ -1605,12 +1618,16 @@ Theorem c16_msg_nonempty_needed :
   codec_ok penc pdec (fun m => option_map meta_of (pdec m)) /\
   bs <> [] /\ ctype_of bs <> [] /\ lenN (ctype_of bs) <= 65535 /\
   Forall (fun b => exists m, penc b = Some m /\ lenN m < two32) bs /\     (* writable without m <> [] *)
-  snd (write_all penc bs) = WOk /\
-  file_of penc bs = [100; 98; 105; 110; 1; 0; 1; 65; 0; 0; 0; 1; 1; 0; 0; 0; 0] /\
+  (* the writer as shipped: both writes succeed *)
+  c16_write_all_unfixed penc bs = ([100; 98; 105; 110; 1; 0; 1; 65; 0; 0; 0; 1; 1; 0; 0; 0; 0], WOk) /\
   expected 0 false bs = (bs, OEOF) /\
-  read_blocks pdec 0 false (file_of penc bs) = (Some (mkHdr 1 [65]), [c16_b1], OErr) /\
+  read_blocks pdec 0 false (fst (c16_write_all_unfixed penc bs)) = (Some (mkHdr 1 [65]), [c16_b1], OErr) /\
   (* C16_prefix_intact with k = 2, f' = the file itself: the second item is missing *)
-  firstn 2 (rf_items (read_blocks pdec 0 false (file_of penc bs))) <> firstn 2 (fst (expected 0 false bs)).
+  firstn 2 (rf_items (read_blocks pdec 0 false (fst (c16_write_all_unfixed penc bs)))) <> firstn 2 (fst (expected 0 false bs)) /\
+  (* since the fix C16-writer-empty-encoding the writer refuses the second block: the sequence is not
+     "written with the block writer", and what was written reads back as [b1] followed by end-of-file *)
+  write_all penc bs = ([100; 98; 105; 110; 1; 0; 1; 65; 0; 0; 0; 1; 1], WErr) /\
+  read_blocks pdec 0 false (fst (write_all penc bs)) = (Some (mkHdr 1 [65]), [c16_b1], OEOF).
 Proof.
   cbv zeta. split; [exact (c16_table_codec_ok [1] [] eq_refl)|].
   split; [discriminate|]. split; [discriminate|]. split; [cbv; discriminate|].
@@ -1618,8 +1635,9 @@ Proof.
   { constructor; [|constructor; [|constructor]].
     - exists [1]. split; reflexivity.
     - exists []. split; reflexivity. }
-  split; [vm_compute; reflexivity|]. split; [vm_compute; reflexivity|].
-  split; [reflexivity|]. split; [vm_compute; reflexivity|]. vm_compute. discriminate.
+  split; [vm_compute; reflexivity|].
+  split; [reflexivity|]. split; [vm_compute; reflexivity|].
+  split; [vm_compute; discriminate|]. split; vm_compute; reflexivity.
 Qed.
 Print Assumptions c16_msg_nonempty_needed.
 
@@ -1627,7 +1645,7 @@ Print Assumptions c16_msg_nonempty_needed.
    prefix of the blocks and EOF only on a block boundary (possibly not necessary there). *)
 Definition c16_trunc_row (n : nat) : list blk * outcome :=
   let r := read_blocks (c16_tdec [1] [] c16_b1 c16_b2) 0 false
-                       (firstn n (file_of (c16_tenc [1] []) [c16_b1; c16_b2])) in
+                       (firstn n (fst (c16_write_all_unfixed (c16_tenc [1] []) [c16_b1; c16_b2]))) in
   (rf_items r, rf_outcome r).
 Example c16_msg_nonempty_not_needed_for_truncation :
   map c16_trunc_row (seq 0 18) =
